@@ -176,7 +176,8 @@ func (h *MultiHandler) Accept(msg *Message) {
 	h.finalize()
 }
 
-func (h *MultiHandler) verifyBroadcastMessage(msg *Message) error {
+func (h *MultiHandler) verifyBroadcastMessage(msg *Message) (err error) {
+	defer recoverAsError(&err)
 	r, ok := h.rounds[msg.RoundNumber]
 	if !ok {
 		return nil
@@ -208,7 +209,8 @@ func (h *MultiHandler) verifyBroadcastMessage(msg *Message) error {
 }
 
 // verifyMessage tries to handle a normal (non reliably broadcast) message for this current round.
-func (h *MultiHandler) verifyMessage(msg *Message) error {
+func (h *MultiHandler) verifyMessage(msg *Message) (err error) {
+	defer recoverAsError(&err)
 	// we simply return if we haven't reached the right round.
 	r, ok := h.rounds[msg.RoundNumber]
 	if !ok {
@@ -238,6 +240,16 @@ func (h *MultiHandler) verifyMessage(msg *Message) error {
 	}
 
 	return nil
+}
+
+// recoverAsError turns a panic raised while a peer's message is decoded, verified or stored (a
+// decoder given a null where a point is expected, a verification routine dereferencing a field
+// the message left out) into an error: the session is then aborted and the sender blamed, instead
+// of the process crashing on network input.
+func recoverAsError(err *error) {
+	if r := recover(); r != nil {
+		*err = fmt.Errorf("malformed message: %v", r)
+	}
 }
 
 func (h *MultiHandler) finalize() {
